@@ -85,9 +85,49 @@ def run(ctx):
     ctx.floor('AUTH-BEFORE-RELEASE', 2)
 
     # ---- 2. plaintext only from the AEAD Ok value
-    lb = prog.async_body(MGR + '::load_and_decrypt')
-    oks = L.success_returns(lb)
-    for i, (bb, st) in enumerate(oks):
+    # The bodies that produce load_and_decrypt's success value: itself, or (when it hands the job to helpers and returns
+    # their result) those helpers. Every file any of them reads must be the store path itself: a second source of key
+    # material (backup copy, previous generation) is a store the current password does not protect.
+    lb0 = prog.async_body(MGR + '::load_and_decrypt')
+    producers = []      # (body, bb, stmt)
+    reads = []          # (body, call site, path expr, [caller arg exprs])
+
+    def producers_of(body, depth, argmap):
+        got = L.success_returns(body)
+        for bb, st in got:
+            producers.append((body, bb, st))
+        for cs in body.calls(r'fs::File::open$|^std::fs::read$|^tokio::fs::read$|OpenOptions::open$|fs::read_to_string$'):
+            reads.append((body, cs, body.expr(cs.args[-1] if not cs.callee.endswith('OpenOptions::open') else cs.args[1]), argmap))
+        if depth <= 0:
+            return
+        # non-aggregate definitions of the return place: results of local helpers handed through
+        for d in body.defs().get(0, []):
+            kind, bb, si, th = d
+            if kind == 'c':
+                cs = F.CallSite(body, bb, th)
+                e = F.Expr('call', cs.callee, [F.Expr.of_operand(body, a, 20) for a in cs.args], cs)
+            else:
+                r = th['r']
+                if r['k'] == 'agg':
+                    continue
+                e = F.Expr.of_rvalue(body, r, 30)
+            for x in e.walk():
+                if x.k == 'call' and prog.has_body(x.a) and x.a.startswith(MGR + '::') and x.a != body.root:
+                    hb = prog.async_body(x.a)
+                    if hb is None or hb.id == body.id:
+                        continue
+                    argmaps.setdefault(hb.id, []).append((prog.body(x.a), x.b))
+                    if hb.id not in visited:
+                        visited.add(hb.id)
+                        producers_of(hb, depth - 1, None)
+    argmaps = {}
+    visited = set([lb0.id])
+    producers_of(lb0, 3, None)
+    seen_p = set()
+    for i, (lb, bb, st) in enumerate(producers):
+        if (lb.id, bb) in seen_p:
+            continue
+        seen_p.add((lb.id, bb))
         v = lb.expr(st['r']['ops'][0])
         dec = v.mentions_call(DECRYPT)
         under_try = False
@@ -109,10 +149,35 @@ def run(ctx):
                 if 'password' in txt and 'header.salt' in txt and 'postcard::from_bytes' in txt:
                     oks_salt = True
             oknonce = any('header.nonce' in lb.expr(a).show() for a in dec.c.args)
-        ctx.ob('PLAINTEXT-FROM-AEAD', 'load_and_decrypt:return#%d' % i, dec is not None and under_try and okk and oks_salt and oknonce, lb.where(st.get('ln')),
-               'returned data is decoded from %s; key from derive_key(password, header.salt of the decoded file): %s/%s; nonce from header: %s' % (
+        n = sum(1 for o in ctx.obls if o.rule == 'PLAINTEXT-FROM-AEAD' and o.key.startswith('load_and_decrypt:return'))
+        ctx.ob('PLAINTEXT-FROM-AEAD', 'load_and_decrypt:return#%d' % n, dec is not None and under_try and okk and oks_salt and oknonce, lb.where(st.get('ln')),
+               'returned data (%s) is decoded from %s; key from derive_key(password, header.salt of the decoded file): %s/%s; nonce from header: %s' % (
+                   lb.root.rsplit('::', 1)[-1],
                    'the Ok value of decrypt' if under_try else 'something other than a successful decrypt', okk, oks_salt, oknonce))
-    ctx.floor('PLAINTEXT-FROM-AEAD', 1)
+    # single source: what is opened for reading is self.storage_path (directly, or as the argument every caller passes)
+    for body, cs, pe, _unused in reads:
+        def is_store(e):
+            t = e.strip()
+            return t.k == 'field' and isinstance(t.b, str) and t.b.endswith('::storage_path')
+        ok_src = is_store(pe)
+        shown = pe.brief(80)
+        t = pe.strip()
+        if not ok_src and t.k == 'param' and argmaps.get(body.id):
+            ok_src = True
+            shown = 'parameter `%s`' % t.b
+            for root, args in argmaps[body.id]:
+                idx = None
+                for j in range(1, root.argc + 1):
+                    if root.local_name(j) == t.b:
+                        idx = j - 1
+                if idx is None or idx >= len(args) or not is_store(args[idx]):
+                    ok_src = False
+                    shown += ' <- %s' % (args[idx].brief(80) if idx is not None and idx < len(args) else '?')
+        n = sum(1 for o in ctx.obls if o.key.startswith('load:reads-store-only'))
+        ctx.ob('PLAINTEXT-FROM-AEAD', 'load:reads-store-only#%d' % n, ok_src, cs.where(),
+               ('key material is read from %s' % shown) + ('' if ok_src else
+               ': NOT the store path itself — a second copy of the key material (backup / previous generation) opens with a password that is no longer current and hides tampering of the store'))
+    ctx.floor('PLAINTEXT-FROM-AEAD', 2)
 
     # ---- 3. temp + rename discipline
     eb = prog.async_body(MGR + '::encrypt_and_store')
